@@ -192,6 +192,7 @@ def monitor(ctx, extended=False):
             except Exception as e:   # noqa
                 ctx.violation(f'store_to_excel raised {type(e).__name__}: {e} for name {n!r}', {'requested': n}, key='file-name')
         # round trip
+        must_names = ['Slurry pump', 'Pipeline booster', ' driver side pump', 'Booster 650 ', 'pump']
         for i in range(ctx.n(12, 400) * (2 if extended else 1)):
             sl = None
             if i < 4 or ctx.rng.random() < 0.3:
@@ -210,8 +211,9 @@ def monitor(ctx, extended=False):
             secs = pl.pipesections
             # pump names as users choose them: with the words the workbook format uses for its tabs, with blanks at the ends
             for j_, sct in enumerate(list(secs)):
-                if not isinstance(sct, Pipe) and ctx.rng.random() < 0.5:
-                    q_ = G.clone_pump(sct, name=ctx.rng.choice(['Slurry pump', 'Pipeline booster', 'Booster 650 ', ' driver side pump', 'Main Pump', 'pump']))
+                if not isinstance(sct, Pipe) and (must_names or ctx.rng.random() < 0.5):
+                    # (the first pumps of a run get each of the awkward names once, so that none of them depends on the draw)
+                    q_ = G.clone_pump(sct, name=must_names.pop(0) if must_names else ctx.rng.choice(['Slurry pump', 'Pipeline booster', 'Booster 650 ', ' driver side pump', 'Main Pump', 'pump']))
                     q_._example = getattr(sct, '_example', sct.name)
                     secs[j_] = q_
             # section names as a user types them: leading / trailing blanks or tabs, inner double blanks, punctuation, non-ASCII
@@ -227,9 +229,9 @@ def monitor(ctx, extended=False):
                 secs.insert(len(secs) - 1, twin)
                 pl = Pipeline(name=pl.name, pipe_list=secs, slurry=pl.slurry)
             force_curve = (i % 3 == 1)
-            if force_curve and not any((not isinstance(s_, Pipe)) and s_.limited == 'curve' for s_ in secs):
-                # every third pipeline has at least one pump limited by a driver curve
-                secs.insert(len(secs) - 1, G.random_pump(ctx.rng, mode='curve'))
+            if force_curve and (i % 6 == 1 or not any((not isinstance(s_, Pipe)) and s_.limited == 'curve' for s_ in secs)):
+                # every third pipeline has at least one pump limited by a driver curve; every sixth one whose engine turns slower than the pump (step-up gear, ratio 0.8)
+                secs.insert(len(secs) - 1, G.random_pump(ctx.rng, mode='curve', gear=0.8 if i % 6 == 1 else None))
                 pl = Pipeline(name=pl.name, pipe_list=secs, slurry=pl.slurry)
             pl = share_flow_list(pl, ctx.rng, runout=True)
             if force_curve or ctx.rng.random() < 0.5:
